@@ -112,7 +112,8 @@ Proof. exact (top_detached_receives_nothing fe ops0 p h ops). Qed.
 Print Assumptions C04_detached_receives_nothing.
 
 (* whole histories: event by event the model shows the application what the specification machine
-   (partial map prefix -> handler; longest occupied prefix; sent iff t <= deadline, reported = sent)
+   (partial map prefix -> handler; longest occupied prefix; sent iff t <= deadline and the face is up,
+   reported = sent -- a NetworkError out of reply() reads as "nothing sent, not reported as sent")
    prescribes; same invocations in the same order; same attachments at the end *)
 Theorem C04_refines fe ops sops :
   sops_of fe ops = Some sops ->
@@ -140,6 +141,19 @@ Theorem C04_reply_truthful d t running sent r :
   r = (if sent then RTrue else RFalse).
 Proof. exact (top_reply_truthful d t running sent r). Qed.
 Print Assumptions C04_reply_truthful.
+
+(* ... whatever the state of the face when the handler calls reply (it may have gone down between the
+   delivery of the Interest and the reply): transmitted iff inside the lifetime AND the face is up
+   (the specification's s_reply_out); the return value is True exactly then; an exception is
+   NetworkError and only when nothing was transmitted -- "sent" is never reported for a Data that
+   did not go out *)
+Theorem C04_reply_truthful_any_face d t running :
+  match reply_closure d t running with
+  | Ok (sent, r) => sent = s_reply_out d t running /\ r = (if sent then RTrue else RFalse)
+  | Err e => e = E_NETWORK /\ s_reply_out d t running = false /\ running = false /\ t <= d
+  end.
+Proof. exact (top_reply_any_face d t running). Qed.
+Print Assumptions C04_reply_truthful_any_face.
 
 (* whatever representation names the prefix (encoded name, component list, canonical URI, list of
    component strings) attach and detach act on the same key — corollary of C09_normalize_agree *)
@@ -200,7 +214,10 @@ Definition ex_ops : list op :=
    OAttach [ex_e] (Some 5) None (false, false); OAttach [ex_a; ex_b] (Some 7) None (false, false);
    ORecv [ex_a; ex_b; ex_e] (Some 100) 1000; OSettle;
    ODetach [ex_a; ex_b]; ORecv [ex_a; ex_b; ex_e] None 1000; ORecv [ex_a; ex_b; ex_c; ex_e] (Some 0) 1000;
-   ORecv [ex_c] None 1001; OSettle; OReply 0 1100 true; OReply 0 1101 true].
+   ORecv [ex_c] None 1001; OSettle; OReply 0 1100 true; OReply 0 1101 true;
+   (* the face goes down after the delivery: inside the lifetime reply raises, after it it returns False;
+      once the face is up again the Data goes out *)
+   OReply 1 1200 false; OReply 0 1200 false; OReply 1 1201 true].
 Example C04_example :
   Forall wf_op ex_ops /\
   (exists sops, sops_of FE_V2 ex_ops = Some sops) /\
@@ -210,14 +227,17 @@ Example C04_example :
      ObRecv (LHit [ex_a; ex_b] 2); ObCalls [mk_call 2 [ex_a; ex_b; ex_e] 1100];
      ObOk; ObRecv (LHit [ex_a] 1); ObRecv (LHit [ex_a; ex_b; ex_c] 3); ObRecv (LHit [] 9);
      ObCalls [mk_call 1 [ex_a; ex_b; ex_e] 5000; mk_call 3 [ex_a; ex_b; ex_c; ex_e] 1000; mk_call 9 [ex_c] 5001];
-     ObReply true RTrue; ObReply false RFalse] /\
+     ObReply true RTrue; ObReply false RFalse;
+     ObErr E_NETWORK; ObReply false RFalse; ObReply true RTrue] /\
+  map abs_obs (skipn 15 (snd (run_ops FE_V2 ex_ops))) =
+    [Some (SoReply false false); Some (SoReply false false); Some (SoReply true true)] /\
   attached (s_fib (exec FE_V2 st0 ex_ops)) [ex_a; ex_b] = None /\
   attached (s_fib (exec FE_V2 st0 ex_ops)) [ex_a; ex_b; ex_c] = Some 3 /\
   Forall uri_comp [ex_a; ex_b].
 Proof.
   split; [repeat (constructor; try exact I)|].
   split; [eexists; vm_compute; reflexivity|].
-  split; [vm_compute; reflexivity|]. split; [vm_compute; reflexivity|].
+  split; [vm_compute; reflexivity|]. split; [vm_compute; reflexivity|]. split; [vm_compute; reflexivity|].
   split; [vm_compute; reflexivity|]. split; [vm_compute; reflexivity|].
   assert (U : forall x, x < 256 -> uri_comp [8; 1; x]).
   { intros x Hx. exists 8, [x]. split; [vm_compute; reflexivity|]. split; [split; lia|].
